@@ -1768,7 +1768,7 @@ class Transaction(object):
                         continue
                 if not replace_signatures and key in [x.public_key for x in self.inputs[tid].signatures]:
                     _logger.info("Key %s already signed" % key.public_hex)
-                    break
+                    continue
 
                 if not key.private_byte:
                     raise TransactionError("Please provide a valid private key to sign the transaction")
@@ -1778,7 +1778,7 @@ class Transaction(object):
                 n_signs += 1
 
             if not n_signs:
-                break
+                continue
 
             # Add already known signatures on correct position
             n_sigs_to_insert = len(self.inputs[tid].signatures)
